@@ -173,6 +173,14 @@ class TreeProfile(object):
                 node_genome_up = self.ham._get_ancestral_genome_by_name(node.up.name)
 
                 if node.is_leaf():
+                    tax_nodes = self.ham.taxonomy.tree.search_nodes(name=node.name)
+                    if len(tax_nodes) == 1 and tax_nodes[0].is_leaf() and "genome" not in tax_nodes[0].features:
+                        # a species of the tree without any gene in the data: every gene of its parent level is lost
+                        # on this branch. No ExtantGenome is created for it (a tree profile only reads the analysis).
+                        nbr_lost = len(node_genome_up.genes)
+                        _add_annot(node, 0, 0, nbr_lost, 0, 0, 0, nbr_lost)
+                        continue
+
                     node_genome = self.ham._get_extant_genome_by_name(name=node.name)
                     nbr = node_genome.get_number_genes(singleton=True)
 
